@@ -326,50 +326,94 @@ func checkBuildLiterals(c *Ctx, r *Report) {
 			}
 			seen[fn] = true
 			name := c.FnName(fn)
-			allInstrs(fn, false, func(in ssa.Instruction) {
-				st, ok := in.(*ssa.Store)
-				if !ok {
-					return
+			// per path reaching the serialisation: what the RMCP and message layers hold there —
+			// a literal assigned whole, or a zero value filled in field by field
+			type verdict struct {
+				ok  bool
+				why string
+				pos token.Pos
+			}
+			res := map[string]*verdict{}
+			note := func(key string, ok bool, why string, pos token.Pos) {
+				v := res[key]
+				if v == nil {
+					v = &verdict{ok: true, pos: pos}
+					res[key] = v
 				}
-				sel := apOf(st.Addr).SelString()
-				if sel != fRmcp && sel != fMsg {
-					return
+				if !ok && v.ok {
+					v.ok, v.why, v.pos = false, why, pos
 				}
-				// the stored value may be built by a helper: its origins are the literal(s)
-				var f map[string]ssa.Value
-				isLit := false
-				if os := viewOrigins(fn, st.Val); len(os) == 1 {
-					f, _, isLit = complitFields(os[0])
-				}
-				if !isLit {
-					return
-				}
-				switch sel {
-				case fRmcp:
-					get := func(n string) int64 {
-						k, _ := constInt(f[n])
-						return k
+			}
+			enumPaths(fn, 1, 20000, func(p CPath) {
+				occs := p.OccsPos()
+				for at, oc := range occs {
+					if !isCallTo(oc.In, fnSerializeLayers) {
+						continue
 					}
-					okk := get("Version") == 6 && get("Sequence") == 0xff && get("Class") == 7 && len(f) == 3
-					r.Check(okk, name+"|RMCP literal", st.Pos(), "version 6, sequence 0xFF, class 7", fmt.Sprintf("RMCP header literal is version %d sequence %#x class %d", get("Version"), get("Sequence"), get("Class")))
-				case fMsg:
-					okAddr := callConstArg(f["RemoteAddress"], "Address") == 0x10 && callConstArg(f["LocalAddress"], "Address") == 0x40
-					okLUN := false
-					if call, ok := f["RemoteLUN"].(*ssa.Call); ok && call.Call.IsInvoke() && call.Call.Method.Name() == "RemoteLUN" {
-						okLUN = true
-					}
-					okOp := false
-					for _, fv := range f { // the embedded Operation struct is a promoted (unnamed) selector
-						if ld, ok := fv.(*ssa.UnOp); ok {
-							if call, ok := ld.X.(*ssa.Call); ok && call.Call.IsInvoke() && call.Call.Method.Name() == "Operation" {
-								okOp = true
+					// the objects whose layer fields this path assigned before serialising
+					roots := map[ssa.Value]map[string]token.Pos{}
+					for i := 0; i < at; i++ {
+						st, ok := occs[i].In.(*ssa.Store)
+						if !ok {
+							continue
+						}
+						ap := p.Upto(occs[i].Seg).APIn(occs[i].Ctx, st.Addr)
+						as := ap.SelString()
+						for _, sel := range []string{fRmcp, fMsg} {
+							if as == sel || strings.HasPrefix(as, sel+".") {
+								if roots[ap.Root] == nil {
+									roots[ap.Root] = map[string]token.Pos{}
+								}
+								roots[ap.Root][sel] = st.Pos()
 							}
 						}
 					}
-					seq, _ := constInt(f["Sequence"])
-					r.Check(okAddr && okLUN && okOp && seq == 1, name+"|message literal", st.Pos(), "BMC slave address 0x10→0x20, software ID 0x40→0x81, LUN and operation from the command, sequence 1", fmt.Sprintf("message literal: addresses ok=%v LUN from command=%v operation from command=%v sequence=%d", okAddr, okLUN, okOp, seq))
+					for root, sels := range roots {
+						for sel, pos := range sels {
+							f, whole := p.structAt(occs, at, root, sel)
+							if !whole {
+								continue
+							}
+							switch sel {
+							case fRmcp:
+								get := func(n string) int64 {
+									k, _ := constInt(f[n])
+									return k
+								}
+								okk := get("Version") == 6 && get("Sequence") == 0xff && get("Class") == 7 && len(f) == 3
+								note("RMCP literal", okk, fmt.Sprintf("RMCP header literal is version %d sequence %#x class %d", get("Version"), get("Sequence"), get("Class")), pos)
+							case fMsg:
+								okAddr := callConstArg(f["RemoteAddress"], "Address") == 0x10 && callConstArg(f["LocalAddress"], "Address") == 0x40
+								okLUN := false
+								if call, ok := f["RemoteLUN"].(*ssa.Call); ok && call.Call.IsInvoke() && call.Call.Method.Name() == "RemoteLUN" {
+									okLUN = true
+								}
+								okOp := false
+								for _, fv := range f { // the embedded Operation struct is a promoted (unnamed) selector
+									if ld, ok := fv.(*ssa.UnOp); ok {
+										if call, ok := ld.X.(*ssa.Call); ok && call.Call.IsInvoke() && call.Call.Method.Name() == "Operation" {
+											okOp = true
+										}
+									}
+								}
+								seq, _ := constInt(f["Sequence"])
+								note("message literal", okAddr && okLUN && okOp && seq == 1, fmt.Sprintf("message literal: addresses ok=%v LUN from command=%v operation from command=%v sequence=%d", okAddr, okLUN, okOp, seq), pos)
+							}
+						}
+					}
 				}
 			})
+			for _, key := range []string{"RMCP literal", "message literal"} {
+				v := res[key]
+				if v == nil {
+					continue
+				}
+				good := "version 6, sequence 0xFF, class 7"
+				if key == "message literal" {
+					good = "BMC slave address 0x10→0x20, software ID 0x40→0x81, LUN and operation from the command, sequence 1"
+				}
+				r.Check(v.ok, name+"|"+key, v.pos, good, v.why)
+			}
 		}
 	}
 	// the Address() helpers: slave address<<1, software ID<<1|1
